@@ -16,6 +16,7 @@ import (
 	"bytes"
 	"fmt"
 	"math"
+	"math/big"
 	"math/rand/v2"
 	"strconv"
 	"strings"
@@ -203,6 +204,24 @@ func (g *g4) realObj() (tokObj, spelled) {
 var nearNumbers = []string{"1e", "e5", "1.2.3", "--5", "+", ".", "-", "1#0", "37#1", "10#-5", "+16#10", "16#", "0x1p4", "1_0", "1_000.5",
 	"Inf", "NaN", "infinity", "0x10", "1e+", ".e5", "+.", "-.e1", "1E", "0b1", "0o7", "1__0", "1_", "_1", "8#9", "2#2", "16#G", "1#", "#1", "1e5e5",
 	"+-1", "1-", "1+1", "0x", "1.e", "e", "E1", "-e1", "1,5", "1'000", "+Inf", "-inf", "nan", "1e1.5", "0X1P4", "1_0#1", "36#Z_", "1.0f", "0x1.8p1", "1p4"}
+
+// radix numbers around the ends of the 64-bit range, in bases that are and are not
+// powers of two (what lies beyond the integer range is not a number of this form)
+func init() {
+	two64 := new(big.Int).Lsh(big.NewInt(1), 64)
+	two63 := new(big.Int).Lsh(big.NewInt(1), 63)
+	for _, base := range []int{2, 3, 5, 7, 8, 10, 11, 16, 29, 36} {
+		for _, ref := range []*big.Int{two63, two64, new(big.Int).Lsh(big.NewInt(1), 65), new(big.Int).Lsh(big.NewInt(1), 80)} {
+			for d := int64(-3); d <= 40; d++ {
+				if d > 6 && d%7 != 0 {
+					continue
+				}
+				v := new(big.Int).Add(ref, big.NewInt(d))
+				nearNumbers = append(nearNumbers, fmt.Sprintf("%d#%s", base, v.Text(base)))
+			}
+		}
+	}
+}
 
 func isRegularByte(b byte) bool {
 	if b <= 32 {
